@@ -656,7 +656,20 @@ def report(prop, tier, seed, results, extras, wall, rebaseline, replay):
             elif b and f.fn not in b.get('functions', []) and not rebaseline:
                 undecided.append('%s: %s fails but its function is not in the baseline of verified functions' % (u.name, nm))
             else:
-                violations.append((u, f, nm))
+                # a function that calls a callee the unit does not know (auto-stubbed WITHOUT a contract) cannot be decided
+                # modularly: nothing is known about the new callee, so the failed obligation says `needs a contract`, not
+                # `property broken`.  Only a concrete failing input from the replay of the real text makes it a violation.
+                rec = next((r for r in u.gen.fns if r.qual == f.fn), None) if hasattr(u, 'gen') else None
+                new_callees = [q for q in getattr(u, 'auto_stubs', []) if rec is not None and re.search(r'\b%s\s*\(' % re.escape(q.split('::')[-1]), rec.raw or '')]
+                if new_callees:
+                    wit = find_witness(prop, u, f, nm)
+                    if wit:
+                        f.witness_cached = wit
+                        violations.append((u, f, nm))
+                    else:
+                        undecided.append('%s: %s fails against the empty contract of new callee(s) %s; no failing input found by replaying the real code' % (u.name, nm, ', '.join(new_callees)))
+                else:
+                    violations.append((u, f, nm))
         for c in getattr(u, 'confirmed', []):
             nm = '%s:%s/%s' % (u.name, c['fn'], c['label'])
             k = match_known(known, prop, nm, '')
@@ -735,7 +748,7 @@ def report(prop, tier, seed, results, extras, wall, rebaseline, replay):
                            witness=wit, how_to_rerun='./check %s --replay %s' % (prop, rp))
         else:
             rec = next((r for r in u.gen.fns if r.qual == f.fn), None)
-            wit = find_witness(prop, u, f, nm)
+            wit = getattr(f, 'witness_cached', None) or find_witness(prop, u, f, nm)
             payload = dict(property=prop, obligation=nm, unit=u.name, function=f.fn, labels=f.labels,
                            message=f.message, call_site_or_clause=f.site, verifier='verus/z3',
                            verifier_output=f.rendered, extracted_from=rec.file if rec else None,
